@@ -204,41 +204,42 @@ def r3_pairing(ctx):
             pops += 1
         yield Ob('x12file:X12Writer._popToLoop %s of %s is guarded' % (kind, norm(sub)), okg, ctx.floc(f, sub),
                  '' if okg else 'Close() or a trailer with nothing open would raise IndexError')
-    closes = [c for c in A.calls_in(f) if A.call_target(c) == ('self', '_close_loop')]
-    from ..cfg import reaching_defs, node_of
+    # what _popToLoop closes, decided by running it (constant propagation over its CFG) on every stack of open loops up
+    # to depth 4 and every target type: the loops from the top of the stack down to and including the nearest loop of
+    # the target type are closed, each with its own type and id, innermost first, and removed; the rest stays open
+    from ..absint import traces, NotClosedTest
     g_p = ctx.cfg(f)
-    RD, DEFS = reaching_defs(g_p)
-
-    def _closes_popped(c):
-        """_close_loop(V[0], V[1]) where every definition of V that reaches the call is `self.loops.pop()`"""
-        if len(c.args) != 2:
-            return False
-        vs = []
-        for i, a in enumerate(c.args):
-            if not (isinstance(a, ast.Subscript) and isinstance(a.value, ast.Name) and A.const(a.slice) == i):
-                return False
-            vs.append(a.value.id)
-        if vs[0] != vs[1]:
-            return False
-        nd = node_of(g_p, c)
-        rd = (RD.get(nd.id) or {}).get(vs[0]) if nd is not None else None
-        if not rd or -1 in rd:
-            return False
-        for d in rd:
-            for nm, v in DEFS[d]:
-                if nm == vs[0] and not (isinstance(v, ast.Call) and A.call_target(v) == ('self.loops', 'pop') and not v.args):
-                    return False
-        return True
-    okc = len(closes) == 2 and all(_closes_popped(c) for c in closes)
-    yield Ob('x12file:X12Writer._popToLoop closes every popped loop with its own type and id', okc and pops == 2, ctx.floc(f),
-             '' if okc and pops == 2 else '%d pops, close calls %s' % (pops, [norm(c) for c in closes]))
-    whiles = [s for s in f.body if isinstance(s, ast.While)]
-    ok = len(whiles) == 1 and 'self.loops[-1][0] != loop_type' in norm(whiles[0].test)
-    yield Ob('x12file:X12Writer._popToLoop pops inner loops until the target type is on top', ok, ctx.floc(f),
-             '' if ok else 'loop condition %s' % (norm(whiles[0].test) if whiles else None))
-    after = [s for s in f.body if isinstance(s, ast.If)]
-    ok = bool(whiles) and bool(after) and f.body.index(after[-1]) > f.body.index(whiles[0])
-    yield Ob('x12file:X12Writer._popToLoop closes the target loop after the inner ones', ok, ctx.floc(f), '' if ok else 'target loop not closed last')
+    import itertools as _it
+    types = ('ISA', 'GS', 'ST')
+    stacks = [()]
+    for depth in (1, 2, 3, 4):
+        for combo in _it.product(types, repeat=depth):
+            stacks.append(tuple((t_, 'id%d' % i_) for i_, t_ in enumerate(combo)))
+    bad = None
+    n_runs = 0
+    for stack in stacks:
+        for target in types:
+            try:
+                res = traces(g_p, {'self.loops': stack, 'loop_type': target},
+                             lambda c: '_close_loop' if A.call_target(c) == ('self', '_close_loop') else None)
+            except NotClosedTest as e:
+                raise AnalysisError('X12Writer._popToLoop: a test cannot be decided on the stack %s: %s' % ([t_ for t_, _ in stack], e))
+            n_runs += 1
+            want_closed = []
+            rest = list(stack)
+            while rest:
+                top = rest.pop()
+                want_closed.append(('_close_loop', top))
+                if top[0] == target:
+                    break
+            outs = {(t, dict(e_).get('self.loops')) for t, e_ in res}
+            if outs != {(tuple(want_closed), tuple(rest))} and bad is None:
+                bad = (stack, target, sorted(outs, key=repr)[0] if outs else None, (tuple(want_closed), tuple(rest)))
+    yield Ob('x12file:X12Writer._popToLoop closes the open loops down to and including the target, innermost first, each with its own type and id',
+             bad is None, ctx.floc(f),
+             '' if bad is None else 'with %s open, _popToLoop(%r) closes %s and leaves %s; it must close %s and leave %s'
+             % ([t_ for t_, _ in bad[0]], bad[1], [c_[1] for c_ in bad[2][0]] if bad[2] else None, bad[2][1] if bad[2] else None,
+                [c_[1] for c_ in bad[3][0]], list(bad[3][1])), note='%d stack/target combinations' % n_runs)
     f = ctx.func('x12file', 'X12Writer.Close')
     pc = [c for c in A.calls_in(f) if A.call_target(c) == ('self', '_popToLoop')]
     ok = len(pc) == 1 and A.const(pc[0].args[0]) == 'ISA'
@@ -300,41 +301,54 @@ def r4_isa_delims(ctx):
 
 
 def r5_write_arms(ctx):
+    """what Write does with a segment, decided per segment id by running Write over its CFG with the id fixed (constant
+    propagation; every test on the id and on check_837_lx is then decided): the shared bookkeeping first; a supplied
+    trailer is regenerated by _popToLoop(<its header>) and not written; the ISA goes through _write_isa_segment; LX
+    under check_837_lx gets the writer's own counter and is written once; every other segment is written once, as is."""
+    from ..absint import traces, NotClosedTest
     f = ctx.func('x12file', 'X12Writer.Write')
-    first = f.body[0] if f.body else None
-    i = 0
-    while i < len(f.body) and isinstance(f.body[i], ast.Expr) and isinstance(f.body[i].value, ast.Constant):
-        i += 1
-    first = f.body[i]
-    ok = isinstance(first, ast.Expr) and isinstance(first.value, ast.Call) and A.call_target(first.value) == ('self', '_parse_segment') \
-        and [path_of(a) for a in first.value.args] == ['seg_data']
-    yield Ob('x12file:X12Writer.Write runs the shared bookkeeping first', ok, ctx.floc(f, first),
-             '' if ok else 'first statement is %s' % norm(first))
-    arms = list(A.branch_chain(f.body, A.name_or_call_pred('seg_id', 'seg_data.get_seg_id()')))
-    if not arms:
-        raise AnalysisError('Write: dispatch on seg_id not found')
-    has_else = False
-    for lab, body, extra, node in arms:
-        acts = []
-        for st in body:
-            for c in A.calls_in(st):
-                r, m = A.call_target(c)
-                if r == 'self' and m in ('_popToLoop', '_write_segment', '_write_isa_segment'):
-                    acts.append(m)
-        if lab is None:
-            has_else = True
-        key = 'x12file:X12Writer.Write[%s]' % (lab if lab is not None else 'else')
-        if lab in ('IEA', 'GE', 'SE'):
-            ok = acts == ['_popToLoop']
-            msg = 'a supplied trailer must be regenerated, not written: %s' % acts
-        elif lab == 'ISA':
-            ok = acts == ['_write_isa_segment']
-            msg = 'the ISA must go through _write_isa_segment: %s' % acts
-        else:
-            ok = acts == ['_write_segment']
-            msg = 'segment must be written exactly once: %s' % acts
-        yield Ob(key + ' action', ok, ctx.floc(f, node), '' if ok else msg)
-    yield Ob('x12file:X12Writer.Write has a default arm', has_else, ctx.floc(f), '' if has_else else 'ordinary segments are not written')
+    g = ctx.cfg(f)
+    pairs = _reader_pairs(ctx)
+    want_pop = {t: h for t, (h, _) in pairs.items()}
+
+    def key(c):
+        r, m = A.call_target(c)
+        if r == 'self' and m in ('_parse_segment', '_popToLoop', '_write_segment', '_write_isa_segment', '_close_loop'):
+            return m
+        if r == 'seg_data' and m in ('set', 'append', 'set_seg_term', 'set_ele_term', 'set_subele_term'):
+            return 'seg_data.' + m
+        return None
+    for sid in ('IEA', 'GE', 'SE', 'ISA', 'LX', 'CLM', 'NM1', 'GS', 'ST', 'HL'):
+        for lx in (True, False):
+            env = {'seg_id': sid, 'seg_data.get_seg_id()': sid, 'self.check_837_lx': lx, 'self.lx_count': 7}
+            try:
+                res = traces(g, env, key, funcs={'seg_data.get_seg_id': lambda sid=sid: sid})
+            except NotClosedTest as e:
+                raise AnalysisError('X12Writer.Write: a test cannot be decided for segment id %s: %s' % (sid, e))
+            trs = sorted({t for t, _e in res})
+            k = 'x12file:X12Writer.Write[%s%s]' % (sid, ', check_837_lx' if lx else '')
+            if len(trs) != 1:
+                yield Ob(k + ' action', False, ctx.floc(f), 'the action is not determined by the segment id: %s' % trs)
+                continue
+            tr = list(trs[0])
+            first_ok = tr[:1] == [('_parse_segment', (('expr', 'seg_data'),))]
+            acts = tr[1:] if first_ok else tr
+            names = [a_[0] for a_ in acts]
+            if not first_ok:
+                ok, msg = False, 'the shared bookkeeping (_parse_segment(seg_data)) does not run first: %s' % names
+            elif sid in want_pop:
+                ok = acts == [('_popToLoop', (want_pop[sid],))]
+                msg = 'a supplied trailer must be regenerated by _popToLoop(%r) and not written: %s' % (want_pop[sid], acts)
+            elif sid == 'ISA':
+                ok = acts == [('_write_isa_segment', (('expr', 'seg_data'),))]
+                msg = 'the ISA must go through _write_isa_segment: %s' % names
+            elif sid == 'LX' and lx:
+                ok = len(acts) == 2 and acts[0][0] == 'seg_data.set' and acts[0][1] == ('01', '7') and acts[1] == ('_write_segment', (('expr', 'seg_data'),))
+                msg = 'LX must get the writer\'s own decimal counter in LX01 and be written once: %s' % (acts,)
+            else:
+                ok = acts == [('_write_segment', (('expr', 'seg_data'),))]
+                msg = 'segment must be written exactly once and unchanged: %s' % (acts,)
+            yield Ob(k + ' action', ok, ctx.floc(f), '' if ok else msg)
 
 
 def r6_shared_counters(ctx):
